@@ -21,7 +21,7 @@ import (
 )
 
 type Op struct {
-	Op  string `json:"op"` // put read mutate delete evict evicthold release writeback flush
+	Op  string `json:"op"` // put read mutate poke delete evict evicthold release writeback flush
 	Key int    `json:"key,omitempty"`
 	Val int    `json:"val,omitempty"`
 	Num int    `json:"num,omitempty"` // evict fraction = num/den, den in {1,2,4}
@@ -193,6 +193,7 @@ func run(in Input) (res lib.Result) {
 	}
 
 	var hist []string
+	handles := map[int]*obj{} // the pointer the client last obtained for each key (from Put or Get)
 	counts := map[string]int{}
 	held := -1
 	overlaps := 0
@@ -256,19 +257,29 @@ func run(in Input) (res lib.Result) {
 		counts[o.Op]++
 		switch o.Op {
 		case "put":
-			r.c.Put(keyName(k), &obj{Val: o.Val})
+			p := &obj{Val: o.Val}
+			handles[k] = p
+			r.c.Put(keyName(k), p)
 			emit(fmt.Sprintf("HPut %d %d", k, o.Val))
+		case "poke":
+			// mutate through the pointer obtained earlier, without going through the cache
+			if p, ok := handles[k]; ok {
+				p.Val = o.Val
+				emit(fmt.Sprintf("HPoke %d %d", k, o.Val))
+			}
 		case "read":
 			if held == k {
 				overlaps++
 			}
 			p := get(k)
+			handles[k] = p
 			emit(fmt.Sprintf("HRead %d %d", k, p.Val))
 		case "mutate":
 			if held == k {
 				overlaps++
 			}
 			p := get(k)
+			handles[k] = p
 			got := p.Val
 			p.Val = o.Val
 			emit(fmt.Sprintf("HMutate %d %d %d", k, o.Val, got))
@@ -376,7 +387,7 @@ func run(in Input) (res lib.Result) {
 	res.Coq = "{| c_keys := " + lib.List(keys) + "; c_hist := " + lib.List(hist) + " |}"
 	res.NonTrivial = nontrivial(in)
 	feat := map[string]interface{}{"stream": in.Stream, "len": len(in.Ops), "keys": nkeys, "forced_overlaps": overlaps}
-	for _, kname := range []string{"put", "read", "mutate", "delete", "evict", "evicthold", "writeback", "flush"} {
+	for _, kname := range []string{"put", "read", "mutate", "poke", "delete", "evict", "evicthold", "writeback", "flush"} {
 		feat["n_"+kname] = counts[kname]
 	}
 	res.Feat = feat
@@ -446,11 +457,13 @@ func gen(r *rand.Rand, idx int, tier string) Input {
 				in.Ops = append(in.Ops, Op{Op: "release"})
 				continue
 			}
-			switch r.Intn(4) {
+			switch r.Intn(5) {
 			case 0:
 				in.Ops = append(in.Ops, Op{Op: "put", Key: k, Val: val})
 			case 1:
 				in.Ops = append(in.Ops, Op{Op: "mutate", Key: k, Val: val})
+			case 2:
+				in.Ops = append(in.Ops, Op{Op: "poke", Key: k, Val: val})
 			default:
 				in.Ops = append(in.Ops, Op{Op: "read", Key: k})
 			}
@@ -458,8 +471,10 @@ func gen(r *rand.Rand, idx int, tier string) Input {
 			in.Ops = append(in.Ops, Op{Op: "put", Key: k, Val: val})
 		case x < 42:
 			in.Ops = append(in.Ops, Op{Op: "read", Key: k})
-		case x < 55:
+		case x < 50:
 			in.Ops = append(in.Ops, Op{Op: "mutate", Key: k, Val: val})
+		case x < 55:
+			in.Ops = append(in.Ops, Op{Op: "poke", Key: k, Val: val})
 		case x < 63:
 			in.Ops = append(in.Ops, Op{Op: "delete", Key: k})
 		case x < 85:
